@@ -50,8 +50,15 @@ ASSUMPTIONS = ["a sub-suite's run(result) does not catch what the result raises 
                "stream: a queue item is attributed to the worker whose thread put it, and an event main passes to the "
                "caller's result to the worker whose item main dequeued last (harness knowledge; route codes may be "
                "shared by several sub-suites and identify nobody)",
-               "stream: attachment-only events travel with the worker's next status event (harness queue)",
-               "fault plans are per thread (the k-th call of thread t on the caller's result raises)"]
+               "stream: attachment-only events travel with the worker's next status event (harness queue); the "
+               "startTestRun queue item (ignored by main) is not a scheduling point and not observed - which thread "
+               "opens a worker's result, and when, is left open by the statement",
+               "on an abort the workers told to stop are observed as a set (flags); the comparison with the model "
+               "(Corr.C13.alpha) is per thread, not of the global interleaving, ignores main's acquire/stop()/release "
+               "inside the abort handler and the live flags of an aborted run",
+               "fault plans are per thread (the k-th call of thread t on the caller's result raises); for the caller of "
+               "the classic suite's run() only the FIRST stop() of the abort handler is made to raise (number and order "
+               "of these calls are not fixed by the statement)"]
 EXPLANATION = ("Theorems in coq/Props/C13.v over all schedules; correspondence: the real concurrent suites with real "
                "threads under harness/vcheck/sched.py against coq/Model/Concur.v.")
 CASE_TIMEOUT = 40
@@ -164,9 +171,16 @@ def parse_id(test_id, route):
     return 998
 
 
-def invisible(item):
+def is_attachment(item):
     return (isinstance(item, dict) and item.get("event") == "status" and item.get("test_status") is None
             and item.get("file_name") is not None)
+
+
+def invisible(item):
+    """queue items that are neither scheduled nor observed: attachment-only events (their number depends on
+    traceback formatting) and the startTestRun item - main ignores it, and the statement does not say which
+    thread opens a worker's result or when"""
+    return is_attachment(item) or (isinstance(item, dict) and item.get("event") == "startTestRun")
 
 
 class Describe:
@@ -242,6 +256,14 @@ def drive(case):
     import testtools
     import testtools.testsuite as ts
     from ..sched import Scheduler, SchedQueue, ThreadingNamespace
+
+    class CountingQueue(SchedQueue):
+        n_attachments_put = 0
+
+        def put(self, item, block=True, timeout=None):
+            if is_attachment(item):
+                self.n_attachments_put += 1
+            return SchedQueue.put(self, item, block, timeout)
     stream = case["variant"] == "stream"
     exc = BoomBase if case["base"] else Boom
     sched = Scheduler(case["sched"])
@@ -252,7 +274,7 @@ def drive(case):
     desc = Describe(sched, routes)
 
     def make_queue(maxsize=0):
-        qq = SchedQueue(sched, log=trace, get_faults=[] if case["get_intr"] is None else [case["get_intr"]],
+        qq = CountingQueue(sched, log=trace, get_faults=[] if case["get_intr"] is None else [case["get_intr"]],
                         exc=BoomBase, describe=desc, invisible=invisible)
         queues.append(qq)
         return qq
@@ -342,9 +364,9 @@ def drive(case):
     if state["raised"] is None and not sched.deadlock:
         raise RuntimeError("run() ended with an unexpected exception: %r" % (sched.tasks[0].exc,))
     if stream and queues and not sched.deadlock and state["raised"] is False:
-        if queues[0].n_invisible != target.n_invisible or queues[0].held:
-            raise RuntimeError("attachment-only events lost: %d dequeued, %d delivered, %d held" % (
-                queues[0].n_invisible, target.n_invisible, len(queues[0].held)))
+        if queues[0].n_attachments_put != target.n_invisible:
+            raise RuntimeError("attachment-only events lost: %d put on the queue, %d delivered" % (
+                queues[0].n_attachments_put, target.n_invisible))
     sem_free = True
     if not stream and ns.semaphores:
         sem_free = ns.semaphores[0].count == 1
@@ -575,7 +597,10 @@ def generate(rng, tier):
         if v == "stream":
             variants += [dict(main_faults=[k]) for k in range(6)]
         else:
-            variants += [dict(get_intr=k, main_faults=[j]) for k in range(2) for j in range(2)]
+            # classic: the only call main makes on the caller's result is stop() inside the abort handler.  How many
+            # such calls there are, and for which worker first, is left open by the statement, so "the k-th one
+            # raises" means the same thing for every allowed behaviour only for k = 0 (the first one)
+            variants += [dict(get_intr=k, main_faults=[0]) for k in range(2)] + [dict(mt_raise=1, main_faults=[0])]
         for kw in variants:
             for s in rng.sample(scheds, min(per, len(scheds))):
                 cases.append(mk_case(v, suites, s, base=rng.random() < 0.3, **kw))
@@ -597,7 +622,7 @@ def generate(rng, tier):
         elif r < 0.35:
             kw["get_intr"] = rng.randint(0, nw + (3 if v == "stream" else 0))
         if rng.random() < (0.3 if v == "stream" else 0.15):
-            kw["main_faults"] = [rng.randrange(6)]
+            kw["main_faults"] = [rng.randrange(6)] if v == "stream" else [0]
         style = rng.random()
         if style < 0.5:
             sched = [rng.randrange(nw + 1) for _ in range(rng.randint(0, total))]
